@@ -3,16 +3,17 @@ import RJson.Gen.Facts
 # The constants the hand models copy from the hand-written Go are the constants of the current source
 
 `gofacts` lists, for every function of the hand-written Go (internal/fp, simple_readers.go, token.go,
-machine_helpers.go, complex_readers.go, decode.go, rjson.go), its integer / float / character literals (sorted, so that
-reordering statements does not matter; strings such as error texts are left out). The hand models in `Model/*.lean`
+machine_helpers.go, complex_readers.go, decode.go, rjson.go), its integer / float / character literals and, behind `;;`, its operators and jump statements (`<`, `>=`, `+=`,
+`break`, `return`, …; unary ones prefixed with `u`) — each list sorted, so that reordering statements does not matter; strings
+such as error texts are left out. The hand models in `Model/*.lean`
 were written against exactly these constants — `310` / `330` in `floatBits`, `22` and `15` in `atof64exact`, `0x1f` in
-the string readers, the digit bounds of the integer readers, ... A changed, added or removed literal fails the
+the string readers, the digit bounds of the integer readers, ... A changed, added or removed literal or operator (a `<` that became `<=`, a dropped `break`) fails the
 comparison below on the next run, before any input is tried; named constants and tables are regenerated separately
 (`Gen/Tables.lean`).
 -/
 namespace RJson.Literals
 
 theorem literalsFp_expected : Gen.Facts.literalsFp =
-    [("ParseJSONFloatPrefix", "'.' 0 0 0 0 0 0 0 1 1"), ("atof64exact", "0 0 0 0 15 1e15 1e15 22 22 22 22 22"), ("decimal.RoundedInteger", "'0' 0 0 0xFFFFFFFFFFFFFFFF 10 10 20"), ("decimal.Shift", "0 0 0"), ("decimal.floatBits", "'5' 0 0 0 0 0 0 0 0 0 0 1 1 1 1 1 1 1 1 1 1 1 1 1 1 1 1 2 27 27 310 330"), ("decimal.set", "'+' '-' '-' '.' '0' '0' '0' '0' '0' '0' '9' '9' '9' 'E' 'e' 0 0 0 0 0 0 1 1 1 10 10000"), ("eiselLemire64", "0 0 0 0 0 0 0 0 0 0 0x000FFFFF_FFFFFFFF 0x1FF 0x1FF 0x1FF 0x1FF 0x1FF 0x7FF 0x80000000_00000000 0x80000000_00000000 1 1 1 1 1 1 1 1 1 1023 16 217706 3 52 53 63 64 9"), ("leftShift", "'0' '0' '0' 0 0 0 0 0 10 10 10 10"), ("prefixIsLessThan", "0"), ("readFloat", "'+' '-' '-' '.' '.' '.' '.' '0' '0' '0' '0' '0' '0' '0' '0' '1' '1' '2' '2' '3' '3' '4' '4' '5' '5' '6' '6' '7' '7' '8' '8' '9' '9' '9' '9' 'E' 'e' 0 0 0 0 0 0 0 0 0 0 0 0 0 0 0 0 0 0 0 1 1 1 10 10 10 10 10000 19"), ("rightShift", "'0' '0' '0' '0' 0 0 0 0 0 0 0 0 1 1 1 10 10 10 10"), ("shouldRoundUp", "'0' '5' '5' 0 0 0 1 1 2"), ("trim", "'0' 0 0 0 1")] := by decide +kernel
+    [("ParseJSONFloatPrefix", "'.' 0 0 0 0 0 0 0 1 1 ;; != && && + - == == > return return return return return return return return u! u! u! u!"), ("atof64exact", "0 0 0 0 15 1e15 1e15 22 22 22 22 22 ;; != && && * *= + - / < < <= == > > > >= >> return return return return return return u- u- u- u- ||"), ("decimal.RoundedInteger", "'0' 0 0 0xFFFFFFFFFFFFFFFF 10 10 20 ;; && * *= + ++ ++ ++ - < < < > return return"), ("decimal.Shift", "0 0 0 ;; += -= < < == > > u- u-"), ("decimal.floatBits", "'5' 0 0 0 0 0 0 0 0 0 0 1 1 1 1 1 1 1 1 1 1 1 1 1 1 1 1 2 27 27 310 330 ;; & & & && + + + + ++ += += - - - - - - - - - -- -= < < < < << << << << << << << << << << == == == == > > >= >= >= >= >>= goto goto goto goto goto goto return u- u- u- u- u- |= |= ||"), ("decimal.set", "'+' '-' '-' '.' '0' '0' '0' '0' '0' '0' '9' '9' '9' 'E' 'e' 0 0 0 0 0 0 1 1 1 10 10000 ;; != != && && && * * + + + + ++ ++ ++ ++ ++ ++ ++ += - -- < < < < < < < <= == == == == == == == == == > > >= >= >= break break continue continue continue return return return return return return return u! u! u! u- || || || ||"), ("eiselLemire64", "0 0 0 0 0 0 0 0 0 0 0x000FFFFF_FFFFFFFF 0x1FF 0x1FF 0x1FF 0x1FF 0x1FF 0x7FF 0x80000000_00000000 0x80000000_00000000 1 1 1 1 1 1 1 1 1 1023 16 217706 3 52 53 63 64 9 ;; & & & & & & && && && && && * + + + + + + + ++ ++ += - - - - - -= < < < < < << <<= == == == == == == == > >= >> >> >> >> >>= >>= ^ return return return return return return | |= ||"), ("leftShift", "'0' '0' '0' 0 0 0 0 0 10 10 10 10 ;; != != * * + + + += += += - - - -- -- -- -- -- / / < < << > >= >="), ("prefixIsLessThan", "0 ;; != ++ < < >= return return return"), ("readFloat", "'+' '-' '-' '.' '.' '.' '.' '0' '0' '0' '0' '0' '0' '0' '0' '1' '1' '2' '2' '3' '3' '4' '4' '5' '5' '6' '6' '7' '7' '8' '8' '9' '9' '9' '9' 'E' 'e' 0 0 0 0 0 0 0 0 0 0 0 0 0 0 0 0 0 0 0 1 1 1 10 10 10 10 10000 19 ;; != && && && * * *= *= *= + + ++ ++ ++ ++ ++ ++ ++ ++ ++ ++ ++ ++ ++ ++ ++ ++ ++ ++ += += += += - - - - - - < < < < < <= == == == == == == == == == == == == > >= >= >= >= break continue continue continue goto goto goto goto goto goto return return return return return return return return u! u! u- || || ||"), ("rightShift", "'0' '0' '0' '0' 0 0 0 0 0 0 0 0 1 1 1 10 10 10 10 ;; &= &= * * *= *= + + + + ++ ++ ++ ++ ++ - - - - -= < < << == == == > > >= >> >> >> >> break return"), ("shouldRoundUp", "'0' '5' '5' 0 0 0 1 1 2 ;; != % && && + - - < == == > >= >= return return return return ||"), ("trim", "'0' 0 0 0 1 ;; && - -- == == >")] := by decide +kernel
 
 end RJson.Literals
